@@ -13,7 +13,7 @@ from typing import Any, Dict, List
 
 VERIF = os.path.dirname(os.path.dirname(os.path.abspath(__file__)))
 PY = os.path.join(VERIF, ".venv", "bin", "python")
-REPO = "/repo"
+REPO = os.environ.get("VERIF_REPO", "/repo")  # development aid: point the checks at a scratch worktree; registered commands use /repo
 HOOK_ENV = "JSONPATH_RFC9535_VERIF"
 
 
@@ -77,6 +77,7 @@ def main(argv=None) -> int:
     ap.add_argument("--only", default=None, help="substring filter on obligation ids (development)")
     ap.add_argument("--no-evidence", action="store_true")
     ap.add_argument("-v", "--verbose", action="store_true")
+    ap.add_argument("--keep-going", action="store_true", help="run every obligation even after a replayed violation")
     args = ap.parse_args(argv)
     pid = args.prop.upper()
     seed = int(os.environ.get("VERIF_SEED", "0") or 0)
@@ -119,8 +120,32 @@ def main(argv=None) -> int:
     # longest first
     order = sorted(range(len(obls)), key=lambda i: -float(obls[i].get("timeout", 60)))
     results: List[Any] = [None] * len(obls)
+    # global wall budget: obligations not started when it runs out are reported UNDECIDED (never as passed);
+    # fail-fast: once a counterexample has been replayed on the real code, obligations not yet started are skipped
+    budget = float(os.environ.get("VERIF_BUDGET_S", "1500" if args.tier == "quick" else "14400"))
+    stop = {"why": None}
+    os.makedirs(os.path.join(VERIF, "replays"), exist_ok=True)
+
+    def guarded(job):
+        if stop["why"] is not None:
+            return {"status": "skipped", "notes": [stop["why"]], "paths": 0}
+        if time.time() - t_start > budget:
+            return {"status": "unknown", "notes": ["global wall budget of %.0fs exhausted before this obligation started" % budget], "paths": 0}
+        r = run_worker(job)
+        if r.get("status") == "refuted" and job.get("expect") != "refuted" and job["kind"] == "ch" and not args.keep_going:
+            probe = os.path.join(VERIF, "replays", "%s-probe-%d.json" % (pid, os.getpid()))
+            tmp = probe + "." + job["id"].replace("/", "_")
+            with open(tmp, "w") as fd:
+                json.dump({"module": job["module"], "func": job["func"], "params": job.get("params") or {}, "args": r.get("counterexample")}, fd)
+            try:
+                if run_replay(tmp).get("outcome") == "reproduced":
+                    stop["why"] = "skipped: a replayed violation was already found (%s)" % job["id"]
+            finally:
+                os.unlink(tmp)
+        return r
+
     with concurrent.futures.ThreadPoolExecutor(max_workers=args.jobs) as ex:
-        futs = {ex.submit(run_worker, obls[i]): i for i in order}
+        futs = {ex.submit(guarded, obls[i]): i for i in order}
         for f in concurrent.futures.as_completed(futs):
             results[futs[f]] = f.result()
 
@@ -130,12 +155,16 @@ def main(argv=None) -> int:
     harness_errors: List[str] = []
     undecided: List[str] = []
     vacuous: List[str] = []
+    skipped = 0
     discharged = 0
     replays_run = 0
     os.makedirs(os.path.join(VERIF, "replays"), exist_ok=True)
     nrep = 0
     for o, r in zip(obls, results):
         st = r.get("status")
+        if st == "skipped":
+            skipped += 1
+            continue
         if st == "error":
             harness_errors.append("%s: %s\n%s" % (o["id"], r.get("error"), r.get("traceback", "")))
             continue
@@ -241,6 +270,7 @@ def main(argv=None) -> int:
             "discharged": discharged,
             "undecided": undecided,
             "vacuous_instances": len(vacuous),
+            "skipped_after_violation": skipped,
             "vacuous_note": "instances of an accept/reject family in which no string satisfies the precondition (e.g. no character at that position yields a valid query): exhausted, nothing to assert",
             "exhaustive": bool(obls) and discharged == len(obls),
             "explanation": info.get("explanation", ""),
